@@ -468,5 +468,6 @@ def run(ctx):
     _run_rules(ctx)
     from .. import boundaries
     boundaries.check(ctx, 'C09.RB', 'C09')
+    boundaries.check_guards(ctx, 'C09.RG', 'C09')
     boundaries.check_calls(ctx, 'C09.RC', 'C09')
     boundaries.check_amounts(ctx, 'C09.RA', 'C09')
